@@ -230,6 +230,14 @@ func (x *approvex) runCaseTag(sp *space, idx int64, a, b core.Files, tag string)
 			res.Count("packets_unknown", 1)
 			vOld = nil
 		}
+		// edits to the membership of an existing object-group are outside
+		// the statement: only scripts that create new groups are checked
+		for _, l := range script {
+			if name, ok := strings.CutPrefix(l, "object-group network "); ok && len(m.GroupMembers(name)) > 0 {
+				res.Count("packets_skipped_group_edited_in_place", 1)
+				vOld = nil
+			}
+		}
 	}
 	var routesOld, routesNew map[string]bool
 	if x.orc.routes {
@@ -569,6 +577,57 @@ func aclPairSpace(model, name string, lines []string, nLines, maxLen int, allowE
 // routeECMPTargets: targets may hold several routes to one destination.
 var routeECMPTargets = true
 
+// aclGroupSpace (C14, ASA): ACL lines that reference object-groups whose
+// content differs so much between device and target that the group is
+// replaced (new group, line re-inserted, old line deleted) - a line
+// insert/delete in the sense of the statement.
+var c14GroupLines = []string{
+	"permit ip host 10.1.1.1 any4",
+	"deny ip object-group g1%S any4",
+	"permit tcp any4 host 10.9.9.1 eq 80",
+	"permit ip object-group g2%S host 10.9.9.1",
+	"deny ip host 10.2.2.2 any4",
+}
+
+func aclGroupSpace() *space {
+	sq := seqs(len(c14GroupLines), 1, 3)
+	nb := int64(len(sq))
+	g1 := [][]string{{"10.1.1.1", "10.1.1.2"}, {"10.1.1.2", "10.2.2.2", "10.3.3.3", "10.3.3.4", "10.3.3.5"}}
+	g2 := [][]string{{"10.1.1.2", "10.2.2.2"}, {"10.1.1.1", "10.4.4.1", "10.4.4.2", "10.4.4.3", "10.4.4.4"}}
+	text := func(seq []int, sfx string, v1, v2 int) string {
+		var b strings.Builder
+		use1, use2 := false, false
+		for _, i := range seq {
+			use1 = use1 || i == 1
+			use2 = use2 || i == 3
+		}
+		grp := func(name string, m []string) {
+			b.WriteString("object-group network " + name + "\n")
+			for _, h := range m {
+				b.WriteString(" network-object host " + h + "\n")
+			}
+		}
+		if use1 {
+			grp("g1"+sfx, g1[v1])
+		}
+		if use2 {
+			grp("g2"+sfx, g2[v2])
+		}
+		for _, i := range seq {
+			fmt.Fprintf(&b, "access-list inside_in%s extended %s\n", sfx, strings.ReplaceAll(c14GroupLines[i], "%S", sfx))
+		}
+		fmt.Fprintf(&b, "access-group inside_in%s in interface inside\n", sfx)
+		return b.String()
+	}
+	sp := &space{name: "acl-asa-groups", model: "ASA", n: nb * nb * 4, acl: "inside_in"}
+	sp.gen = func(i int64) (core.Files, core.Files) {
+		v := int(i % 4)
+		i /= 4
+		return core.Files{Main: asaIntf + text(sq[i/nb], "-DRC-0", 0, 0)}, core.Files{Main: text(sq[i%nb], "", v%2, v/2)}
+	}
+	return sp
+}
+
 // route alphabets
 var asaRoutes = []string{
 	"route outside 0.0.0.0 0.0.0.0 10.0.0.1",
@@ -673,6 +732,7 @@ func c14Worker(ctx *core.Ctx) *core.Result {
 		// length 4 over five lines: two overlapping denies, three permits
 		aclPairSpace("ASA", "acl-asa4", c14Lines4, 5, 4, false),
 		aclPairSpace("IOS", "acl-ios4", c14Lines4, 5, 4, false),
+		aclGroupSpace(),
 		// merged target: two raw blocks of the ACL + the Netspoc lines
 		iosRawBlocksSpace("raw-blocks-ios", iosC14Lines(), 6, 3),
 	})
